@@ -13,6 +13,7 @@ Overlay syntax (lines starting with `//@`):
        //@ loop <k> [iter=<name>]   invariant/decreases text placed in the header of loop k (source order)
        //@ loop_begin <k>      text placed at the first statement position of loop k's body
        //@ loop_end <k>        text placed after the last statement of loop k's body
+       //@ after_let <name>    text placed immediately after the statement `let [mut] <name> ...;`
        //@ before <k>          text placed immediately before loop k's statement
        //@ after <k>           text placed immediately after loop k
        //@ exit                text placed after the body (body wrapped as `let r__ = { body }; <text> r__`)
@@ -771,6 +772,30 @@ def build_item(cur, log):
                 ed.insert(toks[lc_].start, "\n" + x.text + "\n")
             else:
                 ed.insert(toks[lc_].end, "\n" + x.text + "\n")
+        elif x.kind == "after_let":
+            # immediately after the statement `let [mut] NAME ... ;` (first declaration of NAME in the body)
+            nm = x.arg
+            hit = None
+            q = k_body + 1
+            while q < k_close:
+                if toks[q].kind == "ident" and toks[q].text == "let":
+                    n1 = next_code(toks, q)
+                    if toks[n1].text == "mut": n1 = next_code(toks, n1)
+                    if toks[n1].kind == "ident" and toks[n1].text == nm:
+                        depth = 0; e = n1
+                        while e < k_close:
+                            tt = toks[e]
+                            if tt.kind == "punct" and tt.text in OPEN_SET: depth += 1
+                            elif tt.kind == "punct" and tt.text in CLOSE_SET: depth -= 1
+                            elif tt.kind == "punct" and tt.text == ";" and depth == 0: break
+                            e += 1
+                        hit = e; break
+                q += 1
+            if hit is None:
+                if x.opts.get("opt"): 
+                    log.append(("skip", where, f"optional after_let {nm}: not present")); continue
+                raise ExtractError(f"lost-anchor: {where}: `let {nm}` not found")
+            ed.insert(toks[hit].end, "\n" + x.text + "\n")
         elif x.kind == "closure":
             cl = find_closures(toks, k_body + 1, k_close)
             kidx = int(x.arg)
